@@ -1,4 +1,5 @@
 import Gmx.Model.Router
+import Gmx.Model.PathCreate
 import Gmx.Driver.Util
 -- ENGINE rt rtEngine stateless
 /-! driver engine `rt` — C44 -/
@@ -29,8 +30,27 @@ def showBals (ms : List RMarket) : String :=
   if ms.isEmpty then "-" else
   ",".intercalate (ms.map fun m => s!"{m.token}:{m.balL}:{if m.isPure then 0 else m.balS}")
 
+def pCMarket (s : String) : Option CMarket :=
+  match (s.splitOn ":").mapM pNat with
+  | some [k, t, i, l, sh, u] => if u ≤ 1 then some { key := k, token := t, index := i, long := l, short := sh, usable := u == 1 } else none
+  | _ => none
+
+def pCMarkets (s : String) : Option (List CMarket) :=
+  if s = "-" then some [] else (s.splitOn ",").mapM pCMarket
+
+def showNats (l : List Nat) : String :=
+  if l.isEmpty then "-" else ",".intercalate (l.map toString)
+
 def rtEngine (args : List String) : String :=
   match args with
+  | ["create", cur, plen, slen, accs, tip, tis, top, tos] =>
+    match pCMarket cur, pCMarkets accs, allNat [plen, slen, tip, tis, top, tos] with
+    | some cur, some accs, some [plen, slen, tip, tis, top, tos] =>
+      if plen ≥ 256 ∨ slen ≥ 256 then "bad-op" else
+      match validateAndInit cur plen slen accs tip tis top tos with
+      | none => "err"
+      | some c => s!"ok {showNats c.primary} | {showNats c.secondary} | {showNats c.tokens} | {c.current}"
+    | _, _, _ => "bad-op"
   | ["swap", into, cur, ms, p1, p2, tl, ts, al, as, el, es, outs] =>
     match pBool into, pMarket cur, pMarkets ms, pNatList p1, pNatList p2, pOptTok tl, pOptTok ts,
           allNat [al, as, el, es], pNatList outs with
